@@ -188,6 +188,37 @@ def classify_write(prog, f, n, R, toupper_ok):
             c = w.get((), 0) if set(w.keys()) <= {()} else None
             if c is None:
                 gc = guard_constant(f, cnt, n['id'])
+                if gc is None and (f.rec.get('internal') or '(anonymous namespace)' in f.qname) and all(re.match(r'^arg\d+$', a) for mono in w for a in mono):
+                    # a file-local helper that takes the byte count as a parameter: the bound is established at its call sites
+                    worst = None
+                    und = False
+                    for g_, cn_ in prog.callers_of(f.usr):
+                        Rg = Renderer(g_)
+                        tot = 0
+                        for mono, co in w.items():
+                            term = co
+                            for a in mono:
+                                k_ = int(a[3:])
+                                args_ = g_.call_args(cn_)
+                                av = g_.nodes[g_.strip(args_[k_], 'all')].get('cv') if k_ < len(args_) else None
+                                if av is None:
+                                    und = True
+                                    term = None
+                                    break
+                                term *= int(av)
+                            if term is None:
+                                break
+                            tot += term
+                        if und:
+                            break
+                        if worst is None or tot > worst[0]:
+                            worst = (tot, g_.loc(cn_['id']))
+                    if und or worst is None:
+                        return 'undecided', 'width', 'byte count %s is a parameter of this helper and a call site passes a non-constant' % P.show(w)
+                    if worst[0] > size or worst[0] < 0:
+                        return 'violation', 'width', '%d bytes are written from an object of %d bytes (call at %s)' % (worst[0], size, worst[1])
+                    c = worst[0]
+                    gc = c
                 if gc is None:
                     return 'violation', 'width', 'byte count %s is not bounded by sizeof(object) = %d' % (P.show(w), size)
                 c = gc
